@@ -204,6 +204,7 @@ segment sits in the file (`pre`), whatever follows it (`post`), for both end-off
 theorem readData_mixed_roundtrip (be : Bool) (ws : List Nat) (m : List (List Nat)) (pre post : List Nat) (past : Bool)
     (hu : isUniform ws = false) (h8 : ∀ w ∈ ws, w % 8 = 0) (h64 : ∀ w ∈ ws, w ≤ 64) (hU : ∀ w ∈ ws, w ≤ upcastBits ws)
     (hm : WellFormed ws m) (hne : pre ≠ [])
+    (hpos : ws.foldl max 0 ≠ 0)     -- some parameter has a non-zero width (all-zero widths are refused: no container type)
     (hext : 0 < m.length * rowBytes ws ∨ past = true) :
     readData (pre ++ encodeEvents be ws m ++ post) pre.length
       (pre.length + m.length * rowBytes ws - (if past then 0 else 1)) .I m.length ws be none = .ok m := by
@@ -250,7 +251,10 @@ theorem readData_mixed_roundtrip (be : Bool) (ws : List Nat) (m : List (List Nat
   simp only [hslice, Bool.not_true, Bool.false_eq_true, if_false]
   have hd := decodeInt_mixed_roundtrip be ws m [] hu h8 hU hm
   simp only [List.append_nil] at hd
-  simp [hd, readData.maskFits]
+  simp [hd, readData.maskFits, hpos]
+
+/-- all-zero widths are refused (the upcast container would have no bytes) -/
+example : readData [70, 1] 1 1 .I 1 [0] false none = .error .TypeError := by decide
 
 /-- non-vacuity: a well-formed 2-event matrix of widths [8, 40, 64] -/
 example : WellFormed [8, 40, 64] [[255, 2^40 - 1, 2^64 - 1], [0, 1, 2^63]] := by
